@@ -162,6 +162,47 @@ def oracle_case(ctx, specs, fixed, thr, rng):
     return changed
 
 
+def sparse_case(ctx, rng):
+    """circuits on a few qubits with sparse, large indices (set iteration order is no longer the numeric order):
+    trim / split / stack must relabel to the lowest indices in increasing order"""
+    from tangelo.linq import Circuit, stack
+    k = rng.randint(2, 4)
+    idx = sorted(rng.sample(range(0, 14), k))
+    if max(idx) < 8:
+        idx[-1] = rng.randint(8, 13)
+        idx = sorted(set(idx))
+        k = len(idx)
+    compact = vlib.rand_gate_list(rng, k, rng.randint(2, 8), NAMES, max_controls=2)
+    used_c = sorted({q for g in compact for q in g["t"] + (g["c"] or [])})
+    sparse = relabel(compact, {i: idx[i] for i in range(k)})
+    used = sorted({q for g in sparse for q in g["t"] + (g["c"] or [])})
+    c = Circuit([to_tangelo_gate(g) for g in sparse])
+    case = {"kind": "sparse", "gates": sparse}
+    ctx.case(case, nontrivial=True, sample=False)
+    ctx.count("sparse")
+    m = {q: i for i, q in enumerate(used)}
+    ref = np_circuit_unitary(relabel(sparse, m), len(used))
+    ct = c.copy().trim_qubits()
+    if ct.width != len(used) or not np.allclose(unitary_of(ct, len(used)), ref, atol=1e-8):
+        ctx.violation(f"trim_qubits on qubits {used} is not the relabelling to 0..{len(used) - 1} in increasing order", case)
+        return False
+    ent = c.get_entangled_indices()
+    for p, sset in zip(c.split(trim_qubits=True), ent):
+        mm = {q: i for i, q in enumerate(sorted(sset))}
+        exp = relabel([g for g in sparse if set(g["t"] + (g["c"] or [])) & sset], mm)
+        if not np.allclose(unitary_of(p, len(sset)), np_circuit_unitary(exp, len(sset)), atol=1e-8):
+            ctx.violation(f"split(trim_qubits=True) on qubits {sorted(sset)}: a piece is not the relabelled sub-circuit", case)
+            return False
+    if len(used) <= 3:
+        st = stack(c, c)
+        w = len(used)
+        exp = relabel(sparse, m) + relabel(sparse, {q: i + w for q, i in m.items()})
+        if st.width != 2 * w or not np.allclose(unitary_of(st, 2 * w), np_circuit_unitary(exp, 2 * w), atol=1e-8):
+            ctx.violation(f"stack(c, c) with c on qubits {used} is not the tensor product of the trimmed circuits", case)
+            return False
+    return True
+
+
 def corr_case(ctx, specs, fixed, thr):
     """model vs code on the gate lists every transformation returns"""
     m = ctx.model
@@ -253,6 +294,9 @@ def run(ctx):
                 ctx.count("changed:" + tag)
         ctx.case({"gates": specs, "n": fixed, "thr": thr}, nontrivial=any(c for _, c in ch))
         if not ok and len(ctx.mismatches) >= 3:
+            break
+    for i in range(ctx.n(60, 1500)):
+        if not sparse_case(ctx, rng):
             break
     clifford_sweep(ctx)
 
